@@ -686,6 +686,12 @@ pub(crate) fn openat2<Fd: AsFd, P: AsRef<Path>>(
     // RESOLVE_IN_ROOT handles that correctly in a race-free way.
     let mut how = how.clone();
     how.flags |= libc::O_CLOEXEC as u64;
+    // As with openat(), O_NOCTTY ensures that a malicious TTY inode cannot
+    // become our controlling terminal. openat2(2) is strict about flags and
+    // rejects O_NOCTTY combined with O_PATH (which cannot open a TTY anyway).
+    if how.flags & libc::O_PATH as u64 == 0 {
+        how.flags |= libc::O_NOCTTY as u64;
+    }
 
     // SAFETY: Obviously safe-to-use Linux syscall.
     let fd = unsafe {
